@@ -16,6 +16,9 @@ import (
 	"runtime/debug"
 	"sort"
 	"strings"
+	"sync"
+	"sync/atomic"
+	"time"
 
 	"github.com/jsightapi/jsight-schema-core/fs"
 
@@ -497,7 +500,9 @@ func runJob(j *proto.Job) (res *proto.Result) {
 	}
 	// hooks off for the serialisation part (they only matter for the build)
 	hs.wantFiles, hs.wantSteps, hs.wantPh = false, false, false
-	if b.accepted {
+	if b.accepted && j.ParallelOps {
+		res.Outputs = parallelOps(b, j)
+	} else if b.accepted {
 		for _, op := range j.Ops {
 			res.Outputs = append(res.Outputs, b.call(op, j.HashOnly))
 		}
@@ -585,6 +590,35 @@ func runScan(j *proto.Job, res *proto.Result) {
 			return
 		}
 	}
+}
+
+// parallelOps calls every accessor of j.Ops at the same time on the one catalog; the yield points of the library delay every other
+// passage a little, so that one goroutine is inside a lazily built part while the next one arrives.
+func parallelOps(b *built, j *proto.Job) []proto.Output {
+	outs := make([]proto.Output, len(j.Ops))
+	var n int64
+	verifhook.OnYield = func(string) {
+		switch k := atomic.AddInt64(&n, 1); k % 3 {
+		case 0:
+			time.Sleep(time.Duration(100+(k%5)*100) * time.Microsecond)
+		case 1:
+			runtime.Gosched()
+		}
+	}
+	defer func() { verifhook.OnYield = nil }()
+	var wg sync.WaitGroup
+	start := make(chan struct{})
+	for i, op := range j.Ops {
+		wg.Add(1)
+		go func(i int, op string) {
+			defer wg.Done()
+			<-start
+			outs[i] = b.call(op, j.HashOnly)
+		}(i, op)
+	}
+	close(start)
+	wg.Wait()
+	return outs
 }
 
 func runProbe(content []byte, off int) (pr proto.ProbeResult) {
